@@ -63,21 +63,23 @@ def namelimit_stage(binp, wd, thorough):
     vlib.tlc_must_pass(mc, "MC_LimitsName")
     log("  MC_LimitsName: %d states generated, %d distinct" % (mc.generated, mc.distinct))
     gcs = "{1, 2, 3}" if thorough else "{1}"
-    # (N, Fill, FillEnds, Distinct, Waits): every assignment of the end times to the admissions, every waiting time
-    fams = [(4, 4, "{1, 2, 3, 4, 6}", "FALSE", "{1, 2, 3, 4, 5, 6, 7}"),
-            (5, 5, "{1, 2, 3, 4, 6}", "TRUE", "{1, 2, 3, 4, 5, 6, 7}"),
-            (6, 5, "{1, 2, 3, 4, 6}", "TRUE", "{1, 2, 3, 4, 5, 6, 7}")]
+    # (N, Fill, FillEnds, Distinct, Waits, GCPers): every assignment of the end times to the admissions, every waiting time
+    w7 = "{1, 2, 3, 4, 5, 6, 7}"
+    fams = [(4, 4, "{1, 2, 3, 4, 6}", "FALSE", w7, gcs),
+            (5, 5, "{1, 2, 3, 4, 6}", "TRUE", w7, gcs),
+            (6, 5, "{1, 2, 3, 4, 6}", "TRUE", w7, gcs)]
     if thorough:
-        fams += [(4, 5, "{1, 2, 3, 4, 6}", "TRUE", "{1, 2, 3, 4, 5, 6, 7}"),
-                 (5, 4, "{1, 2, 3, 4, 6}", "FALSE", "{1, 2, 3, 4, 5, 6, 7}"),
-                 (5, 5, "{1, 2, 3, 4, 6}", "FALSE", "{2, 3, 4, 5, 6}"),
-                 (6, 6, "{1, 2, 3, 4, 6, 7}", "TRUE", "{2, 3, 4, 5, 6, 7}")]
+        fams += [(4, 5, "{1, 2, 3, 4, 6}", "TRUE", w7, gcs),
+                 (5, 4, "{1, 2, 3, 4, 6}", "FALSE", w7, gcs),
+                 (5, 5, "{1, 2, 3, 4, 6}", "FALSE", "{2, 3, 4, 5, 6}", "{1}"),
+                 (6, 6, "{1, 2, 3, 4, 6, 7}", "TRUE", "{2, 3, 4, 5, 6, 7}", gcs)]
     jobs = []
-    for n, fill, ends, distinct, waits in fams:
+    for n, fill, ends, distinct, waits, fgcs in fams:
         name = "name_exh_n%d_f%d%s" % (n, fill, "d" if distinct == "TRUE" else "")
         cfgp = cx.derive_cfg(PID, "Gen_LimitsName_exh.cfg", "Gen_%s.cfg" % name, N="= %d" % n, Fill="= %d" % fill, FillEnds="= " + ends,
-                             Distinct="= " + distinct, Waits="= " + waits, Fresh="= %d" % n, GCPers="= " + gcs)
-        jobs.append((name, "N=%d, %d admissions, %s end times from %s" % (n, fill, "pairwise distinct" if distinct == "TRUE" else "all", ends), cfgp, None))
+                             Distinct="= " + distinct, Waits="= " + waits, Fresh="= %d" % n, GCPers="= " + fgcs)
+        jobs.append((name, "N=%d, %d admissions, %s end times from %s, waits %s, GC periods %s" %
+                     (n, fill, "pairwise distinct" if distinct == "TRUE" else "all", ends, waits, fgcs), cfgp, None))
     for n in ((2, 3, 4, 5, 6) if thorough else (4, 5, 6)):
         name = "name_sim_n%d" % n
         cfgp = cx.derive_cfg(PID, "Gen_LimitsName.cfg", "Gen_%s.cfg" % name, N="= %d" % n)
@@ -142,9 +144,11 @@ def run(tier, v):
     binp = vlib.go_build_test(PID, "c18")
     known = {f["key"]: f for f in vlib.known_findings(PID)}
     # stages 4 (GET limiter) and 5 (per-name limit at the level of the statement) are independent of the rest: run beside it
-    pool = ThreadPoolExecutor(2)
-    fut_lim = pool.submit(limiter_stage, binp, wd, thorough)
+    pool = ThreadPoolExecutor(3)
     fut_name = pool.submit(namelimit_stage, binp, wd, thorough)
+    fut_lim = pool.submit(limiter_stage, binp, wd, thorough)
+    fut_sil = pool.submit(silcommon.run_pipeline, PID, tier, v, ["MC_Silences_Limits.cfg", "MC_Silences_life.cfg"] if thorough else ["MC_Silences_Limits.cfg"],
+                          sim_num=100 if thorough else 25)
 
     # 0. the representative history of finding F4 on the real code
     f4, f4path = run_f4(binp, wd)
@@ -224,9 +228,7 @@ def run(tier, v):
     # 3. silence limits (count incl. expired, encoded size; rejected create/edit changes nothing)
     # (quick: the limit clauses on a small configuration of MC_Silences - MC_Silences_life.cfg alone needs minutes;
     #  thorough: both)
-    smcs, sgens, sresults = silcommon.run_pipeline(
-        PID, tier, v, ["MC_Silences_Limits.cfg", "MC_Silences_life.cfg"] if thorough else ["MC_Silences_Limits.cfg"],
-        sim_num=100 if thorough else 25)
+    smcs, sgens, sresults = fut_sil.result()
     sil_limit_steps = 0
     for name, cfg, gp, lib, g in sgens:
         with open(gp) as f:
@@ -289,14 +291,16 @@ def run(tier, v):
 
     if drift:
         v.notes.append("DRIFT property=%s %d disagreement(s) between code and specification that belong to other properties (C13 / C12; reported by their checks)" % (PID, drift))
-    allres = results + sresults + lres
+    allres = results + sresults + lres + nres
     coverage = {
         "states": sum(m.distinct for m in mcs + smcs), "transitions": sum(m.generated for m in mcs + smcs),
         "traces_validated_against_impl": sum(r["cases"] for r in allres),
         "replay_steps": sum(r["steps"] for r in allres),
         "evaluations": sum(r["cases"] for r in allres),
-        "distinct_nontrivial": sum(r["nontrivial"] for r in results + lres) + sil_limit_steps,
-        "counters": {"alert_limit": cnt, "limiter": lcnt, "silence_sets_refused_by_limit": sil_limit_steps},
+        "distinct_nontrivial": sum(r["nontrivial"] for r in results + lres + nres) + sil_limit_steps,
+        "counters": {"alert_limit": cnt, "name_limit_set_level": ncnt, "limiter": lcnt, "silence_sets_refused_by_limit": sil_limit_steps},
+        "name_limit_runs": [{"run": label, "behaviours": r["cases"], "steps": r["steps"]} for label, lp, r in nruns],
+        "limiter_runs": [{"k": k, "timeout": t, "behaviours": r["cases"], "steps": r["steps"]} for k, t, r in lruns],
         "f4": {"representative_reproduced": reproduced, "listed": "F4" in known, "cases_in_generated_behaviours": f4_cases,
                "over_limit_steps": cnt.get("F4_over_limit", 0), "resends_refused": cnt.get("F4_resend_refused", 0),
                "gc_steps_dropping_a_bucket_with_unexpired_alert": cnt.get("gc_dropped_bucket_with_unexpired_alert", 0),
@@ -304,18 +308,29 @@ def run(tier, v):
         "drift": drift,
         "rule": "one evaluation = one distinct behaviour printed by TLC replayed on fresh real objects, every step compared: alert-limit behaviours of 40 steps "
                 "(non-trivial = contains a refusal or an over-limit state), silence behaviours of 40 ops (non-trivial = Set refused by count or size limit), "
-                "limiter behaviours of <= 16 requests (non-trivial = contains a 503)",
+                "set-level per-name-limit behaviours (fill / wait / probe families of 13-24 steps, simulated ones of 40 steps; non-trivial = contains a refusal or an "
+                "admission into room made by expiry), limiter behaviours of <= 18 steps (non-trivial = contains a 503 of the limiter)",
         "samples": [cx.trim_sample(results[-1]["samples"][0], 4)] if results and results[-1]["samples"] else [],
         "exhaustive": True,
         "bounds": "MC alert limit: N = 3, 4 label sets of one name, endsAt in {now-1, now+1, now+4%s}, time 0..%d, GC between instants; with the finding excused (F4Gap) and, "
                   "separately, with the repaired stale rule and nothing excused; Gen: N in %s, 8 label sets under 3 names, batches of 1-3, time 0..16, GC period in {1,2,3,5}; "
-                  "silences: MC_Silences_Limits.cfg (count limit 2, oversize comment, time 0..4; thorough also MC_Silences_life.cfg) + 40-op behaviours; limiter: MC K = 2, 4 parked requests; Gen K in {1,2,3%s}" %
-                  (", missing" if thorough else "", 3 if thorough else 2, list(limits), ",4" if thorough else ""),
+                  "silences: MC_Silences_Limits.cfg (count limit 2, oversize comment, time 0..4; thorough also MC_Silences_life.cfg) + 40-op behaviours; "
+                  "per-name limit at set level (LimitsName): MC N = %d, %d+1 identities under 2 names, end offsets {0,1,3}, time 0..4; exhaustive families %s "
+                  "(GC period 1 = a GC between any two instants), probe = N new alerts then a re-send of every filled alert; simulated N in %s, 9+2 identities under 2 names, end offsets {0,1,2,3,5,8}, GC period in {1,2,3}; "
+                  "limiter: MC K = 2, timeout 2 ticks, 5 parked requests; Gen (K, timeout ticks; 0 = none) in %s: simulated behaviours of 18 steps and, for some, all histories of %d steps" %
+                  (", missing" if thorough else "", 3 if thorough else 2, list(limits),
+                   3 if thorough else 2, 4 if thorough else 3, [label for label, lp, r in nruns if "simulated" not in label],
+                   [label.split(",")[0] for label, lp, r in nruns if "simulated" in label], sorted(set((k, t) for k, t, r in lruns)), 6 if thorough else 5),
     }
     assumptions = [
         "finding F4 is excused only for the exact state class F4Gap of Alerts.tla, and only while the representative history reproduces on the real code",
         "silence limits are exercised on silence.Silences.Set (the call the API handler makes), not through HTTP",
-        "the limiter is exercised in-process (handler chain of api.New + Register) with GETs parked in an injected GroupFunc; real sockets and the HTTP timeout handler are not part of it",
+        "the limiter and the request timeout are exercised in-process (handler chain of api.New + Register with Concurrency and Timeout, http.TimeoutHandler included) with GET handlers "
+        "gated in an injected GroupFunc / a route of the main router; the gated handler ignores the cancelled request context (as a handler waiting for a lock does); real sockets are not part of it",
+        "'concurrent GET requests' of the statement = GET handlers that are running: a request answered by the timeout still counts until its handler returns (as wired on the unchanged tree: limiter inside the timeout handler)",
+        "set-level per-name-limit behaviours submit one alert per POST with explicit startsAt (the instant of submission) and endsAt a quarter unit after a model instant; alert GC runs half a unit before "
+        "the instants; an accepted re-send of an unexpired alert keeps the later end time (merge rule of provider/mem, judged by C13)",
+        "exhaustive admission orders: 4 admissions under N = 4 with every assignment of 5 end times, 5 admissions under N = 5 and 6 with every order of 5 distinct end times (thorough: more); larger buckets only by simulation",
         "no two submissions of one label set at the same instant in the replayed behaviours; outcomes depending only on a comparison at equality are accepted either way",
         "unexpired = endsAt strictly after now; virtual time (testing/synctest) stands for the wall clock",
     ]
@@ -329,8 +344,18 @@ def replay(path, v):
         binp = vlib.go_build_test(PID, "c18")
         inp, libp = os.path.join(wd, "replay_in.jsonl"), os.path.join(wd, "replay_lib.json")
         open(inp, "w").write(json.dumps(data["behaviour"]) + "\n")
-        json.dump({"k": data["k"]}, open(libp, "w"))
+        json.dump({"k": data["k"], "t": data.get("t", 0)}, open(libp, "w"))
         r = cx.run_replay(binp, "TestLimiter$", inp, libp, os.path.join(wd, "replay_out.json"))
+        for m in r["mismatches"]:
+            v.violation("replay: %s at step %d want %s got %s" % (m["what"], m["step"], m.get("want"), m.get("got")), [path])
+        return
+    if isinstance(data, dict) and "namelimit" in data:
+        wd = os.path.join(vlib.OUT, PID)
+        binp = vlib.go_build_test(PID, "c18")
+        inp, libp = os.path.join(wd, "replay_in.jsonl"), os.path.join(wd, "replay_lib.json")
+        open(inp, "w").write(json.dumps(data["behaviour"]) + "\n")
+        json.dump(data["namelimit"], open(libp, "w"))
+        r = cx.run_replay(binp, "TestNameLimit$", inp, libp, os.path.join(wd, "replay_out.json"))
         for m in r["mismatches"]:
             v.violation("replay: %s at step %d want %s got %s" % (m["what"], m["step"], m.get("want"), m.get("got")), [path])
         return
